@@ -202,12 +202,26 @@ impl Gatekeeper {
     }
 
     /// Adds an appointment to a given user, or updates it if already present in the system (and belonging to the requester).
+    #[cfg(test)]
     pub(crate) fn add_update_appointment(
         &self,
         user_id: UserId,
         uuid: UUID,
         appointment: &ExtendedAppointment,
     ) -> Result<u32, NotEnoughSlots> {
+        self.add_update_appointment_and_get_expiry(user_id, uuid, appointment)
+            .map(|(available_slots, _)| available_slots)
+    }
+
+    /// Same as [Self::add_update_appointment], returning also the expiry of the subscription the appointment has been charged to.
+    /// Both values are read while the user is locked, so they belong to the same state of the subscription (a renewal served
+    /// at the same time comes either before or after both).
+    pub(crate) fn add_update_appointment_and_get_expiry(
+        &self,
+        user_id: UserId,
+        uuid: UUID,
+        appointment: &ExtendedAppointment,
+    ) -> Result<(u32, u32), NotEnoughSlots> {
         // For updates, the difference between the existing appointment size and the update is computed.
         let mut registered_users = self.registered_users.lock().unwrap();
         // The user may have been removed (outdated subscription) since it was authenticated. This is
@@ -231,7 +245,7 @@ impl Gatekeeper {
 
             self.dbm.lock().unwrap().update_user(user_id, user_info);
 
-            Ok(user_info.available_slots)
+            Ok((user_info.available_slots, user_info.subscription_expiry))
         } else {
             Err(NotEnoughSlots)
         }
